@@ -34,7 +34,7 @@ TOL = 1e-10
 
 
 def BOUNDS(tier):
-    return {"depth": 3 if tier == "thorough" else 2, "state_cap_per_generator": 3000 if tier == "thorough" else 800,
+    return {"depth": 3 if tier == "thorough" else 2, "state_cap_per_generator": 3000 if tier == "thorough" else 1600,
             "merge_decimals": [None, 0, 1, 2, 8], "revolve": "scalar angles, angle arrays (4 / 16 / 13 closed), axis 0 and 1"}
 
 
@@ -114,6 +114,10 @@ def generators(tier, seed):
     # integer lattices: merging with decimals=0 (rounding to whole numbers) is meaningful here
     add("Rectangle(lattice 2x3)", lambda: fem.Rectangle(a=(1, 2), b=(3, 5), n=(3, 4)), 6.0)
     add("Cube(lattice 2x1x2)", lambda: fem.Cube(a=(1, 2, 0), b=(3, 3, 2), n=(3, 2, 3)), 4.0)
+    # meshes whose point table has an INTEGER dtype (hand-written coordinates: felupe's own tests build such meshes)
+    add("Mesh(int quad lattice 2x3)", lambda: (lambda m: fem.Mesh(np.rint(m.points).astype(int), m.cells, m.cell_type))(fem.Rectangle(a=(1, 2), b=(3, 5), n=(3, 4))), 6.0)
+    add("Mesh(int triangle)", lambda: fem.Mesh(np.array([[0, 0], [2, 0], [0, 1], [2, 1]]), np.array([[0, 1, 2], [1, 3, 2]]), "triangle"), 2.0)
+    add("Mesh(int hexahedron lattice)", lambda: (lambda m: fem.Mesh(np.rint(m.points).astype(int), m.cells, m.cell_type))(fem.Cube(a=(1, 2, 0), b=(3, 3, 2), n=(3, 2, 3))), 4.0)
     add("Grid(2d)", lambda: fem.Grid(np.array([0.0, 1.0, 3.0]), np.array([0.5, 0.7, 2.0])), 3.0 * 1.5)
     add("Grid(3d)", lambda: fem.Grid(np.array([0.0, 1.0, 3.0]), np.array([0.5, 2.0]), np.array([0.0, 0.3, 0.4])), 3.0 * 1.5 * 0.4)
     add("Grid(1d)", lambda: fem.Grid(np.array([0.0, 1.0, 3.0, 3.5])), 3.5)
@@ -287,6 +291,8 @@ def operations(mesh, tier):
         normals = ([1, 0, 0], [0, 1, 0], [1, 1, 0]) if dim == 2 else ([1, 0, 0], [0, 0, 1], [1, 2, 3])
         for nrm in normals:
             op(f"mirror({nrm})", lambda m, nrm=nrm: m.mirror(normal=nrm, centerpoint=[0.1, 0.2, 0.3]))
+        for ax in range(dim):
+            op(f"mirror(axis={ax},centerpoint=0.25)", lambda m, ax=ax: m.mirror(axis=ax, centerpoint=[0.25, 0.25, 0.25]))
         op("flip.flip", lambda m: m.flip().flip(), post="identity-cells")
         mask = np.arange(mesh.ncells) % 2 == 0
         op("flip(mask).flip(mask)", lambda m, mask=mask: m.flip(mask).flip(mask), post="identity-cells")
@@ -417,7 +423,7 @@ def run(case):
     viol, nontrivial, outcomes, notes = [], [], set(), []
     st = dict(trans=0, traces=0)
     depth = 3 if tier == "thorough" else 2
-    cap = 3000 if tier == "thorough" else 800
+    cap = 3000 if tier == "thorough" else 1600
 
     def bad(sub, what, obs, exp, tol=TOL):
         if len(viol) < 60:
